@@ -66,6 +66,10 @@ def parse_h(out):
     return r
 
 
+def strip(o):
+    return o.split(b'\n', 1)[1] if o.startswith(b'Wrote ') and b'\n' in o else o
+
+
 def model_outcome(r):
     """canonical outcome of a run: (how it ended, exit code, console output, input consumed)"""
     if 'throw' in r or r.get('end') == 'threw':
@@ -281,6 +285,70 @@ def main():
                     judge('fill', 'seed=%d %s' % (seed, desc), parse_h(o))
                     rc, o, e = run3([tbh, b, str(seed), '0', 'probe=1'] + desc.split(), cwd=d, stdin=open(ip, 'rb'), timeout=120)
                     judge('probe', 'seed=%d %s probe' % (seed, desc), parse_h(o), probe=True)
+    # ---- every shipped / toolchain binary that terminates, whatever it reads: the property quantifies over ALL binaries (a
+    # program that reads a word it never wrote sees the memory outside the image).  hextb against hextb: Verilator seeds
+    # through the real executable and memory fills through the harness must all give one and the same result
+    import glob
+    hexasm, _ = vlib.repo_tool('hexasm')
+    xcmp, _ = vlib.repo_tool('xcmp')
+    allbins = []
+    for src in sorted(glob.glob(os.path.join(vlib.REPO, 'tests', 'asm', '*.S'))) + sorted(glob.glob(os.path.join(vlib.REPO, 'tests', 'x', '*.x'))):
+        sd = os.path.join(d, 'all_' + os.path.basename(src))
+        os.makedirs(sd, exist_ok=True)
+        tool = hexasm if src.endswith('.S') else xcmp
+        rc, o, e = run3([tool, src, '-o', 'p.bin'], cwd=sd, timeout=120) if tool else (1, b'', b'')
+        b = os.path.join(sd, 'p.bin') if os.path.exists(os.path.join(sd, 'p.bin')) else os.path.join(sd, 'a.out')
+        if rc == 0 and os.path.exists(b):
+            allbins.append((os.path.relpath(src, vlib.REPO), b))
+    for aname, asrc, ainps in tbcommon.asm_programs():
+        sd = os.path.join(d, 'allasm_' + aname)
+        os.makedirs(sd, exist_ok=True)
+        open(os.path.join(sd, 'p.S'), 'w').write(asrc)
+        rc, o, e = run3([hexasm, 'p.S', '-o', 'p.bin'], cwd=sd, timeout=120) if hexasm else (1, b'', b'')
+        if rc == 0:
+            allbins.append(('asm/' + aname, os.path.join(sd, 'p.bin')))
+    nall = 0
+    if len(allbins) < 20:
+        ck.broken.append('only %d shipped/toolchain binaries could be built for the seed sweep (expected >= 20)' % len(allbins))
+    for name, b in allbins:
+        img = open(b, 'rb').read()
+        for inp in (b'', b'7a\n'):
+            ip = os.path.join(d, 'allin')
+            open(ip, 'wb').write(inp)
+            budget = '60000' if not ck.thorough() else '1500000'
+            rc, o, e = run3([hextb, b, '--max-cycles', budget, '+verilator+seed+1'], cwd=d, stdin=open(ip, 'rb'), timeout=300)
+            rc2, o2, e2 = run3([tbh, b, '1', budget], cwd=d, stdin=open(ip, 'rb'), timeout=300)
+            h1 = parse_h(o2)
+            if h1.get('rc') is None or 'throw' in h1:
+                pass
+            # terminated (not cut by the cycle budget)?  the harness tells: run() returned through EXIT iff consumed/out lines are there and
+            # the same run with twice the budget gives the same result; cheap test: the executable's output for two budgets
+            rcb, ob, eb = run3([hextb, b, '--max-cycles', str(int(budget) * 2), '+verilator+seed+1'], cwd=d, stdin=open(ip, 'rb'), timeout=300)
+            if (rc, o) != (rcb, ob):
+                continue          # still running at the budget: not a terminating run within what is explored
+            results = {('seed1', rc & 0xff, strip(o))}
+            descs = {}
+            for s_ in ((2, 3, 4, 5) if not ck.thorough() else range(2, 40)):
+                r_, o_, e_ = run3([hextb, b, '--max-cycles', budget, '+verilator+seed+%d' % s_], cwd=d, stdin=open(ip, 'rb'), timeout=300)
+                descs['+verilator+seed+%d' % s_] = (r_ & 0xff, strip(o_))
+            for fill in (0x00, 0xA5, 0xFF, 0xD3):
+                r_, o_, e_ = run3([tbh, b, '1', budget, 'fill=0x%02x' % fill], cwd=d, stdin=open(ip, 'rb'), timeout=300)
+                hh = parse_h(o_)
+                descs['fill=0x%02x' % fill] = ((hh.get('rc') if hh.get('rc') is not None else -1), hh.get('out') if 'throw' not in hh else b'THROW')
+            ck.cov['evaluations'] += 1
+            nall += 1
+            distinct.add((name, inp))
+            ref = (rc & 0xff, strip(o))
+            diff = [(k, v) for k, v in sorted(descs.items()) if v != ref]
+            if diff:
+                nbad += 1
+                if nbad <= 6:
+                    ck.violation('hextb on %s (input %r): +verilator+seed+1 gives exit %d output %r, but %s gives exit %s output %r (%d of %d power-on states differ)'
+                                 % (name, inp, ref[0], ref[1][:30], diff[0][0], diff[0][1][0], (diff[0][1][1] or b'')[:30], len(diff), len(descs)),
+                                 {'program': name, 'binary_hex': img.hex() if len(img) < 4000 else None, 'build': 'hexasm/xcmp ' + name, 'input': list(inp),
+                                  'reference': '+verilator+seed+1', 'differing': {k: [v[0], list(v[1] or b'')] for k, v in diff},
+                                  'replay_cmd': 'hextb <bin> +verilator+seed+<n> ; echo $?'}, tags={'kind': 'power-on', 'how': 'memory'})
+    ck.cov['all_binaries_seed_sweep'] = {'binaries': len(allbins), 'terminating_runs_judged': nall}
     # ---- hand-written shapes (consecutive system calls; first instruction a system call -- repaired, a difference is a violation):
     # Verilator seeds through the real executable against hexsim's result
     extras = extra_programs(ck, d)
